@@ -380,4 +380,104 @@ func runC12(c *Ctx) {
 		checkLineLoader(c, f, func(ci *ssa.Call) bool { return callName(ci) == relDomain+".Load" }, "the rule")
 	}
 
+	// ---------------------------------------------------------------- R8
+	c.rule("R8", "the label trie only grows: children is made once (when nil) and filled by newChild, values are set by storeValue; nothing prunes, replaces or clears a subtree", 4)
+	{
+		ww := p.whoWrites()
+		LN := relDomain + ".labelNode."
+		type exp struct {
+			field string
+			ok    func(w fieldWrite) (bool, string)
+		}
+		inFn := func(w fieldWrite, name string) bool { return w.Fn != nil && w.Fn.Name() == name }
+		for _, e := range []exp{
+			{"children", func(w fieldWrite) (bool, string) {
+				if !inFn(w, "newChild") {
+					return false, "written outside newChild"
+				}
+				switch w.Kind {
+				case "mapupdate":
+					if _, isAlloc := w.Val.(*ssa.Alloc); !isAlloc {
+						return false, "a node that is not freshly allocated is linked in"
+					}
+					return true, ""
+				case "store":
+					if _, isMake := w.Val.(*ssa.MakeMap); !isMake {
+						return false, "children is assigned something other than a fresh map"
+					}
+					for _, g := range guardsOfInstr(w.Instr) {
+						if cm, ok := g.asCmp(); ok && cm.Op == token.EQL && isNilConst(cm.Y) {
+							if k, _ := loadedField(cm.X); k == LN+"children" {
+								return true, ""
+							}
+						}
+						// len(children) == 0: nil or empty, nothing is lost
+						if cm, ok := g.asCmp(); ok && cm.Op == token.EQL {
+							if n, isC := constInt(cm.Y); isC && n == 0 {
+								if cl, ok := cm.X.(*ssa.Call); ok && callName(cl) == "builtin:len" {
+									if k, _ := loadedField(cl.Call.Args[0]); k == LN+"children" {
+										return true, ""
+									}
+								}
+							}
+						}
+					}
+					return false, "the map is replaced although it may already hold children"
+				}
+				return false, "children is modified by " + w.Kind
+			}},
+			{"v", func(w fieldWrite) (bool, string) {
+				return inFn(w, "storeValue") && w.Kind == "store", "written outside storeValue"
+			}},
+			{"hasV", func(w fieldWrite) (bool, string) {
+				b, isB := constBool(w.Val)
+				return inFn(w, "storeValue") && w.Kind == "store" && isB && b, "hasV is written outside storeValue or not set to true"
+			}},
+		} {
+			ws := ww.byField[LN+e.field]
+			if len(ws) == 0 {
+				c.anchorMissing("writes of labelNode." + e.field)
+				continue
+			}
+			for _, w := range ws {
+				ok, why := e.ok(w)
+				c.check(ok, "trie-write:"+e.field+"@"+funcName(w.Fn)+":"+w.Kind, instrPos(w.Instr), "allowed trie write",
+					"labelNode."+e.field+": "+why+" ("+funcName(w.Fn)+"): rules stored below or at this node are lost, so a name is matched by a shorter rule's value (or not at all)")
+			}
+		}
+	}
+
+	// ---------------------------------------------------------------- R9
+	c.rule("R9", "keyword and regexp lookups consult every stored rule with the normalised name: no pre-filter skips a rule", 2)
+	for _, mt := range []struct{ typ, callee string }{{"RegexMatcher", "(*regexp.Regexp).MatchString"}, {"KeywordMatcher", "strings.Contains"}} {
+		f := c.fn(relDomain, mt.typ, "Match")
+		if f == nil {
+			continue
+		}
+		var test *ssa.Call
+		nTests := 0
+		eachInstr(f, func(in ssa.Instruction) {
+			if ci, ok := in.(*ssa.Call); ok && callName(ci) == mt.callee {
+				test = ci
+				nTests++
+			}
+		})
+		key := "every-rule-consulted@" + mt.typ
+		if test == nil || nTests != 1 {
+			c.fail(key, f.Pos(), "expected exactly one %s test in the loop, found %d", mt.callee, nTests)
+			continue
+		}
+		extra := ""
+		for _, g := range guardsOfInstr(test) {
+			v, _ := g.asBool()
+			if ex, ok := v.(*ssa.Extract); ok {
+				if _, isNext := ex.Tuple.(*ssa.Next); isNext {
+					continue // the range loop's own "more elements" test
+				}
+			}
+			extra = guardText(g)
+		}
+		c.check(extra == "", key, instrPos(test), "the test runs for every element of the rule map", "the "+mt.callee+" test is skipped under "+extra+": a rule that describes the name is never consulted (false negative)")
+	}
+
 }
